@@ -131,12 +131,12 @@ def cases(tier, seed):
         out.append(dict(name=name, grid=list(grid), devices=devices, bg=bg, exact=exact, under=under))
 
     G = (4, 3, 2)
-    case("cont-iso-dyadic", G, [dev("dev", (1, 0, 1), (2, 2, 1), (1, 2, 1), "iso_dyadic")], exact=True)
+    case("cont-iso-dyadic", G, [dev("dev", (1, 0, 0), (2, 2, 2), (1, 1, 1), "iso_dyadic")], exact=True)
     case("cont-iso-generic", G, [dev("dev", (1, 1, 0), (2, 2, 2), (2, 1, 1), "iso_generic")])
     case("cont-diag", G, [dev("dev", (0, 0, 0), (2, 2, 1), (1, 1, 1), "diag")], bg="diag", exact=True)
     case("cont-full", G, [dev("dev", (2, 1, 0), (2, 1, 2), (1, 1, 2), "full")], bg="full")
     case("cont-tanh", G, [dev("dev", (1, 0, 1), (2, 2, 1), (1, 2, 1), "iso_dyadic", chain="tanh")])
-    case("cont-range", G, [dev("dev", (0, 1, 0), (2, 2, 1), (2, 1, 1), "iso_generic", chain="range")])
+    case("cont-range", (5, 3, 2), [dev("dev", (0, 1, 0), (4, 2, 2), (2, 1, 2), "iso_generic", chain="range")])
     case("disc-iso3", G, [dev("dev", (1, 0, 1), (2, 2, 1), (1, 2, 1), "iso3", chain="closest")], under=(0, 0, 0))
     case("disc-diag3", G, [dev("dev", (0, 1, 0), (2, 1, 2), (1, 1, 1), "diag3", chain="closest")], bg="diag")
     case("disc-full3", G, [dev("dev", (2, 0, 0), (2, 2, 1), (2, 1, 1), "full3", chain="closest")], bg="full")
